@@ -46,5 +46,16 @@
  */
 int snoopy_output_stdoutoutput (char const * const logMessage, __attribute__((unused)) char const * const arg)
 {
-    return fprintf(stdout, "%s\n", logMessage);
+    int charCount;
+
+    charCount = fprintf(stdout, "%s\n", logMessage);
+
+    /*
+     * stdout is buffered unless it is a terminal. Flush it now, or the message is still
+     * sitting in the stdio buffer when exec() is called, and it is lost for good once
+     * the process image is replaced.
+     */
+    fflush(stdout);
+
+    return charCount;
 }
